@@ -503,6 +503,39 @@ func (rm *room) checkOrderings() {
 		r.Op()
 		rm.checkOrder("ReverseTopologicalOrdering/"+name, in, out, byAuth)
 	}
+	rm.checkLinearise()
+}
+
+type stateResp struct{ auth, state gmsl.EventJSONs }
+
+func (s stateResp) GetAuthEvents() gmsl.EventJSONs  { return s.auth }
+func (s stateResp) GetStateEvents() gmsl.EventJSONs { return s.state }
+
+// checkLinearise: LineariseStateResponse over the state at a random node and
+// its auth chain, presented in random order, with entries listed in both
+// lists and twice.
+func (rm *room) checkLinearise() {
+	t := rm.t
+	nd := rm.nodes[sim.Pick(t, rm.order)]
+	state := rm.pdus(nd.after)
+	auth := rm.authChainOf(state)
+	if len(state)+len(auth) < 2 {
+		return
+	}
+	state, auth = sim.Shuffle(t, state), sim.Shuffle(t, auth)
+	if t.Chance(400) && len(auth) > 0 {
+		auth = append(auth, sim.Pick(t, auth))
+	}
+	if t.Chance(300) {
+		auth = append(auth, sim.Pick(t, state))
+	}
+	in := append(append([]gmsl.PDU{}, state...), auth...)
+	verifrt.SetSalt(uint64(t.Intn(1 << 20)))
+	out := gmsl.LineariseStateResponse(rm.ver, stateResp{auth: gmsl.NewEventJSONsFromEvents(auth), state: gmsl.NewEventJSONsFromEvents(state)})
+	verifrt.SetSalt(0)
+	rm.r.Op()
+	rm.r.Logf("linearise state at %s: %d state + %d auth entries", rm.short(nd.id), len(state), len(auth))
+	rm.checkOrder("LineariseStateResponse", in, out, true)
 }
 
 func (rm *room) checkOrder(who string, in, out []gmsl.PDU, byAuth bool) {
